@@ -250,5 +250,11 @@ package state
 // The memory of accepted signed-frame timestamps lives in the session object. Dropping a session that has accepted
 // a signed frame forgets that memory: the same frame is accepted again by the next session for that router.
 // (This obligation FAILS on the current code - see /verif/KNOWN_FINDINGS.txt, C03 "signed frames after session expiry".)
+// Every use stamps the session with the time of that use (the cleaner drops sessions by this stamp, and the replay
+// memory goes with them).
+//@ func Session.inUse
+//@   requires s != nil
+//@   modifies s.lastActivity, s.lock
+//@   ensures stamped-with-the-time-of-use [C03]: s.lastActivity == time_now
 //@ func State.cleanSessions
 //@   callsite delete replay-memory-survives-session-cleanup [C03]: session.signing == nil || session.signing.seqHandler.latest.IsZero()
